@@ -54,6 +54,8 @@ ASSUMPTIONS = [
     "reference semantics of vlib/c09ref.py: member-wise concatenation, trailing non-member bytes are corrupt, zero-length body is empty",
     "MemPipe/VLoop deliver bytes like a selector transport and stop while reading is paused (selftest/smoke_engine.py)",
     "profile rules P-DEFLATE-SNIFF, P-TRUNC-CLEAN-EOF, P-EMPTY-BODY (cited in the module) describe deliberate, test-pinned aiohttp behaviour",
+    "brotli's output_buffer_limit is a soft cap of the library (one step < 2*limit + 32 KiB): the constant factor for br is 4 (+32 KiB), for the other codings 3",
+    "the server-side payload error is RequestPayloadError; for a dropped connection it is ConnectionResetError (BaseRequest._cancel)",
     "read-buffer limit 0 is outside the configuration space (DESIGN.md C08)",
 ]
 FILES = [
@@ -355,18 +357,6 @@ async def consume(content, script: dict, c: Consumed):
 
 class _OpsExceeded(Exception):
     pass
-
-
-def script_read_bound(script: dict):
-    """largest bounded read size a script will request (None = unbounded)"""
-    mode = script.get("mode", "ops")
-    if mode == "readall":
-        return None
-    if mode in ("iter_chunked",):
-        return script["n"]
-    if mode in ("iter_any", "iter_chunks"):
-        return 0
-    return max([op[1] for op in script["ops"] if op[0] in ("read", "readexactly")] or [0])
 
 
 # =================================================================================================================
@@ -1032,7 +1022,7 @@ def judge_server(case, res, rec):
             M = max(limit, Lr)
         bound = cms + (Lr or 0) + 2 * resident_bound(tok, M, MAXSEG)
         rec.maxi("server-total-at-413-permille-of-bound", int(1000 * obs["total_at_exc"] / bound))
-        if cms >= 1024:
+        if cms >= 1024 and cms >= limit:
             rec.maxi("server-total-at-413-permille-of-client_max_size", int(1000 * obs["total_at_exc"] / cms))
         if obs["total_at_exc"] > bound:
             v.append((f"server:{hk}:decoded-total-at-413-over-bound", f"{obs['total_at_exc']} decoded when 413 was raised > {bound} (client_max_size {cms}, limit {limit})"))
@@ -1393,7 +1383,7 @@ def run_empty_bodies(rec, sides=("client", "server")):
                         case["handler"] = "iter"
                         case["cms"] = 1024
                     execute(case, rec, "empty-body")
-    rec.set_exhaustive("zero-length-body: coding x framing x consumer kind", True)
+    rec.count("enumerated-subspace:zero-length-body(coding x framing x consumer kind)")
 
 
 def shard_rng(spec):
@@ -1457,7 +1447,7 @@ def run_shard(spec, rec):
                 case["mut"] = {"kind": "trunc", "at": at}
                 execute(case, rec, "client-trunc-sweep")
             if k == 1:
-                rec.set_exhaustive("truncation-at-every-byte:" + codec, True)
+                rec.count("enumerated-subspace:truncation-at-every-byte-of-one-body:" + codec)
     elif kind == "server":
         for i in range(spec["n"]):
             case = gen_server_case(rng)
